@@ -157,6 +157,28 @@ end
 
 def natStr (n : Nat) : Str := (toString n).toList
 
+mutual
+  /-- is the value nested deeper than the budget allows?  (slot-data aliases can be nested into each
+  other without bound; printing such a value is exponential on both sides, so the case is skipped) -/
+  def tooDeep : Nat → Val → Bool
+    | 0, .dict _ => true
+    | 0, .list _ => true
+    | 0, .injected _ => true
+    | 0, _ => false
+    | n + 1, .dict kvs => tooDeepKvs n kvs
+    | n + 1, .list xs => tooDeepList n xs
+    | n + 1, .injected kvs => tooDeepKvs n kvs
+    | _ + 1, _ => false
+  def tooDeepList : Nat → List Val → Bool
+    | 0, _ => false
+    | _ + 1, [] => false
+    | n + 1, v :: vs => tooDeep n v || tooDeepList n vs
+  def tooDeepKvs : Nat → List (Str × Val) → Bool
+    | 0, _ => false
+    | _ + 1, [] => false
+    | n + 1, (_, v) :: kvs => tooDeep n v || tooDeepKvs n kvs
+end
+
 /-- can the value be a dict key (`slot_name in fills`)?  lists and dicts are not; a namedtuple is
 iff all its fields are -/
 def hashable : Val → Bool
